@@ -253,6 +253,9 @@ def random_pair(rng, idx):
 
 
 FIXED_PAIRS = [
+    # dictionary struct with several appended fields (downgrade must strip their modified bits)
+    ('package p.d\nstruct R root {\n M D\n X uint64\n}\nstruct D dict(D) {\n A string\n B uint64\n}\n',
+     'package p.d\nstruct R root {\n M D\n X uint64\n Y string\n}\nstruct D dict(D) {\n A string\n B uint64\n C uint64\n E string\n F float64\n}\n'),
     # HistogramValue-like: optional fields appended after the kept prefix (downgrade must mask presence bits)
     ('package p.h\nstruct R root {\n V H\n}\nstruct H {\n Count int64\n Sum float64 optional\n}\n',
      'package p.h\nstruct R root {\n V H\n}\nstruct H {\n Count int64\n Sum float64 optional\n Min float64 optional\n Max float64 optional\n Buckets []uint64\n}\n'),
@@ -262,6 +265,16 @@ FIXED_PAIRS = [
     # oneof with appended alternatives
     ('package p.o\nstruct R root {\n V O\n}\noneof O {\n I int64\n S string\n}\n',
      'package p.o\nstruct R root {\n V O\n}\noneof O {\n I int64\n S string\n F float64\n M MM\n}\nmultimap MM {\n key string\n value int64\n}\n'),
+]
+
+
+# (reader schema, writer schema): the writer's descriptor announces MORE fields for one struct/oneof than
+# the reader knows but fewer in total (it passes the length/total test of Compatible): must be refused
+REFUSE_PAIRS = [
+    ('package p.r\nstruct R root {\n V O\n S T\n}\noneof O {\n I int64\n S string\n}\nstruct T {\n A uint64\n B uint64\n C uint64\n}\n',
+     'package p.r\nstruct R root {\n V O\n S T\n}\noneof O {\n I int64\n S string\n F float64\n}\nstruct T {\n A uint64\n}\n'),
+    ('package p.q\nstruct R root {\n S T\n U W\n}\nstruct T {\n A uint64\n}\nstruct W {\n A uint64\n B uint64\n C uint64\n}\n',
+     'package p.q\nstruct R root {\n S T\n U W\n}\nstruct T {\n A uint64\n B string\n}\nstruct W {\n A uint64\n}\n'),
 ]
 
 
@@ -300,7 +313,7 @@ def main():
         # wire schema of A as the model derives it (also checked against the descriptor A writes)
         rcm, mo = vlib.run_lines(ha.model, ha.prelude + [f'counts {ha.name} {ha.rootid(root)}'])
         counts_a = [int(x) for x in mo[-1].split(',') if x]
-        nh = 3 if tier == 'quick' else 8
+        nh = 4 if tier == 'quick' else 10
 
         def report(kind, summary, replay):
             for kid, k in known.items():
@@ -345,6 +358,15 @@ def main():
         for j in range(nh):
             opts = streamlib.gen_opts(rng); opts['schema'] = counts_a
             ops = streamlib.gen_history(sb, root, rng, 2 + rng.below(10))
+            if j % 2 == 1:
+                # every field (also the B-only ones) changes on every record
+                g = streamlib.Gen(sb, rng, max_depth=3)
+                tb_ = {'k': 'struct', 'id': by_name(sb, root, 'structs')}
+                fz = rng.chance(1, 2)
+                ops = []
+                for _ in range(3 + rng.below(5)):
+                    ops += [{'op': 'set', 'v': g.value(tb_), 'freeze': fz}, {'op': 'w'}]
+                ops.append({'op': 'f'})
             casesB.append(dict(id=f'{name}:down{j}', root=root, opts=opts, ops=ops))
         outsB2, _, _ = hb.run_go(casesB)
         rdA = [dict(id=c['id'], root=root, opts={}, mode='readonly', stream=o['stream']) for c, o in zip(casesB, outsB2)]
@@ -386,6 +408,29 @@ def main():
                                        broken='correspondence C04 refuse: model accepts'), f'{name}: model A reader accepts B descriptor', no_input=True)
         if len(samples) < 3:
             samples.append(dict(pair=name, schema_a=ta[:600], schema_b=tb[:900], counts_a=counts_a, counts_b=counts_b))
+    for i, (tr, tw) in enumerate(REFUSE_PAIRS if ok_oc else []):
+        rr, rw = genpkg.build(tr), genpkg.build(tw)
+        if not (rr['ok'] and rw['ok']):
+            verdict.violation(dict(pair=f'refuse{i}', reader=tr, writer=tw, log=(rr['log'] + rw['log'])[-2000:]), f'refuse{i}: schemas do not build')
+            continue
+        hr = streamlib.Harness(rr['key'], rr['sch'], rr['bin'], rr['sjson'])
+        hw = streamlib.Harness(rw['key'], rw['sch'], rw['bin'], rw['sjson'])
+        root = rr['sch']['roots'][0]
+        opts = streamlib.gen_opts(rng); opts['descriptor'] = True; opts['compression'] = 0
+        cw = dict(id=f'refuse{i}', root=root, opts=opts, ops=streamlib.gen_history(rw['sch'], root, rng, 3))
+        ow = hw.run_go([cw])[0][0]
+        orr = hr.run_go([dict(id=cw['id'], root=root, opts={}, mode='readonly', stream=ow['stream'])])[0][0]
+        nev += 1
+        mR = parse_model_line(hr.run_model([(root, ow['stream'], None, 0)])[0])
+        if not orr['read'].get('openerr') or orr['read'].get('recs'):
+            verdict.violation(dict(pair=f'refuse{i}', reader=tr, writer=tw, case=cw, read=orr['read'], model=mR.get('raw')),
+                              f'refuse{i}: reader accepted a descriptor with more fields than it knows in one definition')
+            counters['refuse'] += 1
+        elif mR.get('open') == 'ok':
+            verdict.violation(dict(pair=f'refuse{i}', reader=tr, writer=tw, model=mR.get('raw'), broken='correspondence C04 refuse (diverged): model accepts'),
+                              f'refuse{i}: model reader accepts a diverged descriptor', no_input=True)
+        else:
+            counters['refuse_diverged_ok'] += 1
     genpkg.cleanup()
     if info['broken'] and not verdict.violations:
         verdict.violation(dict(broken=info['broken']), 'proof obligation no longer checks: ' + '; '.join(info['broken'])[:300], no_input=True)
